@@ -457,6 +457,7 @@ def canon(md, inherited, inherit, phases, eapi_obj):
 DRIVER = r'''
 export PKGCORE_EBD_PATH="$1"; ECLDIR="$2"; LIST="$3"; OUT="$4"
 exec 2>>"$OUT/stderr.log"
+__timed_call() { "$@"; }   # as ebuild-daemon.bash defines it when PKGCORE_PERF_DEBUG is off
 source "${PKGCORE_EBD_PATH}"/ebuild-daemon-lib.bash || exit 70
 source "${PKGCORE_EBD_PATH}"/exit-handling.bash || exit 71
 source "${PKGCORE_EBD_PATH}"/isolated-functions.bash || exit 72
@@ -538,8 +539,8 @@ class Impl:
         self.devnull.close()
 
     # ---- direct bash
-    def direct(self, idxs, cases):
-        """run the real bash functions for the listed case indices; returns {i: canonical result}"""
+    def direct_start(self, idxs, cases, nsh):
+        """start the real bash functions on the listed case indices (background processes)"""
         out = Path(self.root) / "direct_out"
         out.mkdir(exist_ok=True)
         drv = Path(self.root) / "driver.bash"
@@ -552,7 +553,7 @@ class Impl:
                                    env["PKGCORE_GLOBAL_FAILGLOB"], env["PKGCORE_BASH_COMPAT"],
                                    f"{self.root}/cat/p{i}/p{i}-1.ebuild",
                                    " ".join(tuple(e.metadata_keys)), " ".join(tuple(e.phases.values()))]))
-        nsh = max(1, min(4, len(rows) // 40))
+        nsh = max(1, min(nsh, len(rows) // 8))
         procs = []
         for k in range(nsh):
             lst = Path(self.root) / f"direct_{k}.tsv"
@@ -560,9 +561,13 @@ class Impl:
             procs.append(subprocess.Popen(["bash", str(drv), str(EBD), f"{self.root}/eclass", str(lst), str(out)],
                                           stdin=subprocess.DEVNULL, stdout=subprocess.DEVNULL, stderr=subprocess.DEVNULL,
                                           env={"PATH": os.environ.get("PATH", "/usr/bin:/bin"), "LC_ALL": "C"}))
+        return procs, out
+
+    def direct_finish(self, started, idxs):
+        procs, out = started
         for p in procs:
             try:
-                p.wait(timeout=600)
+                p.wait(timeout=1500)
             except subprocess.TimeoutExpired:
                 p.kill()
         res = {}
@@ -629,6 +634,11 @@ def fixed_cases():
         out.append({"eapi": eapi, "ecl": {1: [(A, 2, [5]), (A, 3, [6])]}, "ebuild": [(A, 2, [1, 2]), (I, [1])]})
         out.append({"eapi": eapi, "ecl": {1: [(A, 2, [5])]}, "ebuild": [(A, 2, [1]), (A, 3, []), (I, [1])]})
         out.append({"eapi": eapi, "ecl": {1: [(A, 3, [5])]}, "ebuild": [(A, 3, [1]), (I, [1]), (U, 3), (A, 2, [2])]})
+    # two eclasses on one inherit line: the first sets every accumulated variable, the second none / some
+    for eapi in (5, 8):
+        out.append({"eapi": eapi, "ecl": {1: [(A, v, [10 + v]) for v in range(9)], 2: [(A, 13, [30])],
+                                          3: [(Pp, v, [40 + v]) for v in (0, 3, 6, 8)]},
+                    "ebuild": [(I, [1, 2]), (I, [1, 3])] + [(A, v, [50 + v]) for v in (1, 4, 7)]})
     # the same eclass twice, diamond, no phases at all
     out.append({"eapi": 7, "ecl": {1: [(I, [3]), (A, 0, [1])], 2: [(I, [3]), (A, 0, [2])], 3: [(A, 0, [3]), (A, 2, [4])]},
                 "ebuild": [(I, [1, 2]), (I, [3])]})
@@ -657,8 +667,8 @@ def main(chk: Check):
     chk.check_fingerprint(ANCHORS)
 
     env_n = os.environ.get("VERIF_C49_CASES")
-    n_daemon = chk.n(40, 400)
-    n_direct = chk.n(360, 4000)
+    n_daemon = chk.n(4, 120)      # random cases also run through the real daemon (after the fixed ones)
+    n_direct = chk.n(60, 1200)    # random cases run through the directly driven bash functions
     if env_n:
         n_daemon, n_direct = (int(x) for x in env_n.split(","))
     g = Gen(chk.rng)
@@ -666,7 +676,10 @@ def main(chk: Check):
     nfixed = len(cases)
     for k in range(n_direct):
         cases.append(g.case(unset_acc=(k % 8 == 7)))
-    daemon_idx = list(range(nfixed)) + list(range(nfixed, min(len(cases), nfixed + n_daemon)))
+    # quick: the nine per-EAPI "everything once" cases + the two known-finding shapes + a few random ones go
+    # through the real daemon (a daemon round trip costs seconds on a loaded machine); thorough: all fixed + 120
+    fixed_d = list(range(nfixed)) if ((chk.thorough or chk.fingerprint_changed) and not env_n) else list(range(9)) + [nfixed - 2, nfixed - 1]
+    daemon_idx = fixed_d + list(range(nfixed, min(len(cases), nfixed + n_daemon)))
     if env_n and n_daemon == 0:
         daemon_idx = []
 
@@ -699,38 +712,10 @@ def nontrivial_key(c):
 
 
 def run(chk, impl, cases, daemon_idx, ok):
-    # ---- direct stream (all cases)
+    import time as _t
     all_idx = list(range(len(cases)))
-    direct = impl.direct(all_idx, cases)
-    import time as _t
-    chk.note("t_after_direct=%.1f" % (_t.time() - chk.t0))
-    chk.count("direct", len(all_idx))
-    # ---- daemon stream
-    nthreads = 4
-
-    def worker(idxs):
-        ebp = impl.new_ebp()
-        out = {}
-        for i in idxs:
-            out[i] = impl_call(impl.daemon_meta, ebp, i, kinds={"*": "MetadataException"})
-        return out
-    daemon = {}
-    with cf.ThreadPoolExecutor(max_workers=nthreads) as ex:
-        for part in ex.map(worker, [daemon_idx[k::nthreads] for k in range(nthreads)]):
-            daemon.update(part)
-    chk.count("daemon", len(daemon_idx))
-    for i in all_idx:
-        k = nontrivial_key(cases[i])
-        if k:
-            chk.nontrivial(k)
-    import time as _t
-    chk.note("t_after_daemon=%.1f" % (_t.time() - chk.t0))
-    for i in daemon_idx[:2] + daemon_idx[-2:]:
-        chk.sample({"stream": "daemon", "eapi": cases[i]["eapi"],
-                    "ebuild": render_ops(cases[i]["ebuild"], i, False),
-                    "eclasses": {f"c{i}e{e}": render_ops(o, i, True) for e, o in cases[i]["ecl"].items()},
-                    "impl": daemon[i]})
-    # ---- missing eclass (daemon dies; separate processor)
+    # ---- missing-eclass cases (malformed stream): run last on two of the daemons (the daemon is shut down by
+    #      processor.inherit_handler, so they must be the last thing a daemon does)
     miss = []
     for eapi in (0, 8):
         c = {"eapi": eapi, "ecl": {}, "ebuild": [("A", 0, [1]), ("I", [7])]}
@@ -738,46 +723,76 @@ def run(chk, impl, cases, daemon_idx, ok):
         impl.write_case(i, c)
         miss.append((i, c))
     impl.open_repo()
-    miss_bad = []
-    for i, c in miss:
-        try:
-            r = _guard(120, lambda: impl_call(lambda: dict(impl.pkg(i).data)))
-        except _Alarm:
-            r = "hang"
-        chk.count("missing", 1)
-        if r != Err("MetadataException"):
-            miss_bad.append({"eapi": c["eapi"], "ebuild": render_ops(c["ebuild"], i, False), "got": r})
-    for b in miss_bad:
-        chk.violation("property", {"what": "inherit of a nonexistent eclass did not fail metadata generation",
-                                   "input": b})
+    # ---- direct stream (all cases), in background bash processes
+    chk.note("t_setup=%.1f" % (_t.time() - chk.t0))
+    started = impl.direct_start(all_idx, cases, 8 if len(all_idx) < 400 else 12)
+    chk.count("direct", len(all_idx))
+    # ---- daemon stream
+    nthreads = 6 if daemon_idx else 0
+
+    def worker(k):
+        t0 = _t.time()
+        ebp = impl.new_ebp()
+        out = {("t_init", k): round(_t.time() - t0, 1)}
+        for i in daemon_idx[k::nthreads]:
+            out[i] = impl_call(impl.daemon_meta, ebp, i, kinds={"*": "MetadataException"})
+        if k < len(miss):
+            i = miss[k][0]
+            out[("miss", k)] = impl_call(lambda: dict(impl.pkg(i)._fetch_metadata(ebp=ebp)))
+        return out
+    daemon = {}
+    if nthreads:
+        with cf.ThreadPoolExecutor(max_workers=nthreads) as ex:
+            for part in ex.map(worker, range(nthreads)):
+                daemon.update(part)
+    chk.count("daemon", len(daemon_idx))
+    chk.note("daemon start-up times: %s" % [daemon.get(("t_init", k)) for k in range(nthreads)])
+    chk.note("t_after_daemon=%.1f" % (_t.time() - chk.t0))
+    direct = impl.direct_finish(started, all_idx)
+    chk.note("t_after_direct=%.1f" % (_t.time() - chk.t0))
+    for i in all_idx:
+        k = nontrivial_key(cases[i])
+        if k:
+            chk.nontrivial(k)
+    for i in (daemon_idx[:2] + daemon_idx[-2:] if daemon_idx else all_idx[:2]):
+        chk.sample({"stream": "daemon" if daemon_idx else "direct", **describe(cases[i], i),
+                    "impl": daemon[i] if daemon_idx else direct[i]})
+    if nthreads:
+        for k, (i, c) in enumerate(miss):
+            chk.count("missing", 1)
+            r = daemon.get(("miss", k))
+            if r != Err("MetadataException"):
+                chk.violation("property", {"what": "inherit of a nonexistent eclass did not fail metadata generation",
+                                           "input": {**describe(c, i), "got": r}})
 
     # ---- daemon vs direct must agree (two ways of driving the same code)
+    n_dis = 0
     for i in daemon_idx:
         if daemon[i] != direct[i]:
-            chk.violation("correspondence",
-                          {"what": "the real daemon and the directly driven bash functions disagree on the same ebuild",
-                           "input": describe(cases[i], i), "daemon": daemon[i], "direct": direct[i]}, no_input=True)
-            break
+            n_dis += 1
+            if n_dis <= 2:
+                chk.violation("correspondence",
+                              {"what": "the real daemon and the directly driven bash functions disagree on the same ebuild",
+                               "input": describe(cases[i], i), "daemon": daemon[i], "direct": direct[i]}, no_input=True)
 
     if not ok:
         return
-    # ---- Coq: model (A) and spec (B)
+    # ---- Coq: model (A) and spec (B), one cases stream: daemon results first, then direct results
     evals = ["mismatches run_meta cases", "mismatches spec_meta cases"]
-    rows_d = [(coq_case(cases[i]), daemon[i]) for i in daemon_idx]
-    rows_x = [(coq_case(cases[i]), direct[i]) for i in all_idx]
-    rd = chk.coq_eval("daemon", IMPORTS, "N * prog", rows_d, evals, shard=200, preamble="Open Scope N_scope.")
-    rx = chk.coq_eval("direct", IMPORTS, "N * prog", rows_x, evals, shard=500, preamble="Open Scope N_scope.")
+    rows = [("daemon", i, daemon[i]) for i in daemon_idx] + [("direct", i, direct[i]) for i in all_idx]
+    shard = 48 if len(rows) <= 600 else 320
+    r = chk.coq_eval("meta", IMPORTS, "N * prog", [(coq_case(cases[i]), res) for _, i, res in rows], evals,
+                     shard=shard, preamble="Open Scope N_scope.")
+    chk.note("t_after_coq=%.1f" % (_t.time() - chk.t0))
     a_bad, b_bad = [], []
-    if rd is not None:
-        a_bad += [("daemon", daemon_idx[j], daemon[daemon_idx[j]]) for j in rd[0]]
-        b_bad += [("daemon", daemon_idx[j], daemon[daemon_idx[j]]) for j in rd[1]]
-    if rx is not None:
-        a_bad += [("direct", j, direct[j]) for j in rx[0]]
-        b_bad += [("direct", j, direct[j]) for j in rx[1]]
+    if r is not None:
+        a_bad = [rows[j] for j in r[0]]
+        b_bad = [rows[j] for j in r[1]]
 
     # ---- property failures (B)
     new_failures = 0
-    seen_known = False
+    n_known = 0
+    reported = set()
     for stream, i, res in b_bad:
         c = cases[i]
         bad = bad_keys(c, res, impl)
@@ -785,24 +800,31 @@ def run(chk, impl, cases, daemon_idx, ok):
         if bad and all(isinstance(b, int) and b in kk for b in bad):
             if chk.known_finding("eclass-unsets-accumulated-var",
                                  {"stream": stream, **describe(c, i), "implementation": res,
-                                  "disagreeing_keys": [VARS[b] for b in bad]}):
-                seen_known = True
+                                  "expected": spec_view(c, impl), "disagreeing_keys": [VARS[b] for b in bad]}):
+                n_known += 1
                 continue
+        if i in reported:
+            continue
+        reported.add(i)
         new_failures += 1
         if new_failures <= 3:
             chk.violation("property",
                           {"what": "generated metadata is not the statement's combination of ebuild and eclass values "
-                                   "(keys: %s)" % ", ".join(VARS[b] if isinstance(b, int) else str(b) for b in bad),
+                                   "(disagreeing: %s)" % ", ".join(VARS[b] if isinstance(b, int) else str(b) for b in bad),
                            "input": describe(c, i), "stream": stream, "implementation": res,
                            "expected": spec_view(c, impl)})
     # ---- model disagreements (A)
-    for stream, i, res in a_bad[:3]:
+    seen = set()
+    for stream, i, res in a_bad:
+        if i in seen or len(seen) >= 3:
+            continue
+        seen.add(i)
         chk.violation("correspondence",
                       {"what": f"implementation and Model_C49.run_meta disagree (stream {stream}); the theorems of "
                                "Prop_C49 no longer speak about this code",
                        "input": describe(cases[i], i), "coq_input": coq_case(cases[i]), "implementation": res},
                       no_input=(new_failures == 0))
-    chk.note(f"known-class cases that showed the finding: {sum(1 for s, i, r in b_bad if known_class_keys(cases[i]))}")
+    chk.note(f"cases in which the known finding showed: {n_known}")
 
 
 def describe(c, i):
